@@ -226,6 +226,19 @@ class ParseMultiline(Contract):
         return {"s": fresh(("opt", "str"), "s")}
 
 
+# P-17g  License.to_str: the text a License object is stored as - the synopsis followed by the lines of the text, through the
+# encoder's contract (so: synopsis as it is, every text line behind one blank, whitespace-only lines as ' .')
+class LicenseToStr(Contract):
+    locals_order = ['self']
+    target = MOD + ":License.to_str"
+    modular = False
+    ensures = ("result == '\\n'.join(fmt_upto([self.synopsis] + self.text.splitlines(), 1 + len(self.text.splitlines())))",)
+
+    def setup(self, ex):
+        from vf.pyvc.values import VObj
+        return {"self": VObj("License", {"synopsis": fresh("str", "synopsis"), "text": fresh("str", "text")}, "self")}
+
+
 def verify_entry_points(ctx):
     sl = SpecLib()
     w = World(sl)
@@ -238,7 +251,7 @@ def verify_entry_points(ctx):
     w.spec_func(cont_from, rec=dict(args=[("list", "str"), "int"], ret="bool"))
     w.add_contract(FormatLinesAbs())
     w.add_contract(ParseLinesAbs())
-    verify_contracts(ctx, w, [FormatMultiline(), ParseMultiline()], {})
+    verify_contracts(ctx, w, [FormatMultiline(), ParseMultiline(), LicenseToStr()], {})
     ctx.solve()
 
 
@@ -440,7 +453,7 @@ def run(ctx):
                        "PGP armor line or a paragraph separator by the patterns of split_gpg_and_payload (SMT on the real patterns); split_gpg_and_payload, from its real AST, returns exactly the lines (CR / LF stripped) as payload - nothing taken for armor, nothing cut off - for every sequence of lines none of which matches the armor pattern or the separator pattern in force (loop invariant over the line index; both parser settings). ALSO PROVED from the ASTs: _SpaceSeparated.to_str and _LineBased.to_str against recursive specifications (every value stripped, in order, joined by exactly one blank resp. each on a line of its own after an empty first line; None for an empty list; MachineReadableFormatError exactly when a value is empty or contains whitespace resp. a newline). ALSO PROVED from the AST: parse_multiline_as_lines against a recursive per-line decoding of s.splitlines() (first line kept, "
                        "later lines without their leading blank, a lone '.' after it standing for an empty line; list edited in place while "
                        "enumerated; MachineReadableFormatError exactly when a later line does not start with a blank) - str.splitlines "
-                       "itself is an uninterpreted function; the entry points format_multiline / parse_multiline (None stays None, otherwise splitlines + the list function, used through its contract - a modular call - and joined with newlines). NOT proved: the join/splitlines law, License / paragraph classes - BOUNDED part (see module docstring).")
+                       "itself is an uninterpreted function; the entry points format_multiline / parse_multiline (None stays None, otherwise splitlines + the list function, used through its contract - a modular call - and joined with newlines); License.to_str == the encoder's contract applied to the synopsis followed by the lines of the text. NOT proved: the join/splitlines law, License / paragraph classes - BOUNDED part (see module docstring).")
     ctx.assumptions += ["the single empty line list [''] is outside the domain of the codec clause (it encodes to '' which decodes to [])",
                         "lines contain no line-boundary characters"]
 
